@@ -20,10 +20,14 @@ func init() {
 				"the next stage when the matcher fails; passes non-hash queries through; and otherwise answers with exactly the " +
 				"hashes the matcher returned. R4: Storage.Reset, Matches and Hashes split the digest at the same constant " +
 				"(PrefixLen, and twice that in the hex encoding), and the hash-prefix filter installs new data before clearing its " +
-				"cache (shared with C12-R3).",
+				"cache (shared with C12-R3). R5: Matches, Hashes and Reset each read the atomically published suffix map at most " +
+				"once on every path, so one answer is computed from one list version. R6: the hash-prefix result cache, which is " +
+				"consulted before the question-type gate, is keyed injectively by host, type, class and direction.",
 			NotCovered: "EQUALITY WITH THE SHA-256 SET MODEL (that Matches/Hashes return exactly the listed names' hashes) and THE PUBLIC-SUFFIX / FOUR-LABEL CUT of hashableSubdomains: " +
 				"hash and string computations outside static reach.",
-			Rules: map[string]string{"C11-R1": "question-type gates", "C11-R2": "prefix length table", "C11-R3": "refuse, not forward", "C11-R4": "digest split agreement"},
+			Rules: map[string]string{"C11-R1": "question-type gates", "C11-R2": "prefix length table", "C11-R3": "refuse, not forward", "C11-R4": "digest split agreement",
+				"C11-R5": "each Storage method reads the atomically published hash set at most once per path (one list version per answer)",
+				"C11-R6": "result-cache key is an injective packing of host, question type, class and direction (a collision lets a non-A/AAAA/HTTPS question hit a filtered entry)"},
 		}})
 }
 
@@ -32,6 +36,12 @@ func runC11(c *an.Ctx) {
 	c.Floor("C11-R2", 1)
 	c.Floor("C11-R3", 1)
 	c.Floor("C11-R4", 5)
+	c.Floor("C11-R5", 3)
+	c.Floor("C11-R6", 5)
+	// ---- R5: one snapshot of the published hash set per storage method
+	sharedAtomicSnapshot(c, "C11-R5", "filter/hashprefix.Storage", "hashSuffixes", 3)
+	// ---- R6: the result-cache key separates host, question type, class and direction
+	c12Key(c, "C11-R6", "filter/internal.NewCacheKey", []string{"p0", "p1", "p2", "p3"})
 	dt := func(n string) int64 { v, _ := c.ConstInt("github.com/miekg/dns", n); return v }
 	tA, tAAAA, tHTTPS := dt("TypeA"), dt("TypeAAAA"), dt("TypeHTTPS")
 	fam := func(n string) int64 { v, _ := c.ConstInt("github.com/AdguardTeam/golibs/netutil", n); return v }
